@@ -230,7 +230,34 @@ def sk_graph(src):
     return ModuleOp([g]), ok
 
 
-SKELETONS = {"flat": sk_flat, "same": sk_same, "unnamed": sk_unnamed, "multi": sk_multi, "blockargs": sk_blockargs, "blocks": sk_blocks, "blockauto": sk_blockauto, "nested": sk_nested, "iso": sk_iso,
+def sk_floatattrs(src):
+    """both zeros of one float type as property/attribute payloads of different ops of ONE module (each order), plus NaN/inf: the text of one
+    payload must not depend on which other payloads were printed before it"""
+    from xdsl.dialects.builtin import FloatAttr, f32, f64
+
+    vals = [(0.0, f32), (-0.0, f32), (-0.0, f64), (0.0, f64), (1.5, f32), (-1.5, f32), (float("inf"), f64), (float("-inf"), f64)]
+    ops = [T() for _ in vals]
+    for o, (v, t) in zip(ops, vals):
+        o.attributes["p"] = FloatAttr(v, t)
+    ops[1].attributes["d"] = FloatAttr(0.0, f64)
+    ops[0].attributes["d"] = FloatAttr(-0.0, f64)
+    ok = set_hint(ops[0].results[0], src.hint("h0"))
+    use = T(0, [o.results[0] for o in ops])
+    return ModuleOp(ops + [use]), ok
+
+
+def payloads_equal(m, m2):
+    """attribute/property payloads compared as attribute VALUES (not through the printer under test)"""
+    a, b = list(m.walk()), list(m2.walk())
+    if len(a) != len(b):
+        return False
+    for x, y in zip(a, b):
+        if dict(x.properties) != dict(y.properties) or dict(x.attributes) != dict(y.attributes):
+            return False
+    return True
+
+
+SKELETONS = {"floatattrs": sk_floatattrs, "flat": sk_flat, "same": sk_same, "unnamed": sk_unnamed, "multi": sk_multi, "blockargs": sk_blockargs, "blocks": sk_blocks, "blockauto": sk_blockauto, "nested": sk_nested, "iso": sk_iso,
              "termregion": sk_termregion, "graph": sk_graph}
 
 
@@ -295,6 +322,8 @@ def harness(ob, concrete=None):
             return {"prop": False, "detail": f"printed IR does not parse back: {type(e).__name__}"}
         if snapshot(m) != snapshot(m2):
             return {"prop": False, "detail": "parsed IR is not structurally the same"}
+        if ob["skeleton"] == "floatattrs" and not payloads_equal(m, m2):
+            return {"prop": False, "detail": "parsed IR carries different attribute/property values"}
         text2 = print_module(m2)
         r2 = text == text2
         if r2 is False:
